@@ -84,7 +84,7 @@ void run_inject(vf::Ctx &c) {
   std::array<uint8_t, 8> s{};
   uint8_t flags = 0;
   size_t tsi = 0;
-  bool no_span = false;
+  bool no_span = false, product = false;
   // (trace states are validated with std::regex by the library, which is slow under ASan: they get their own sweep)
   int sweep = c.pick("sweep", c.thorough() ? 6 : 5);
   switch (sweep) {
@@ -118,9 +118,10 @@ void run_inject(vf::Ctx &c) {
       t = tids[c.pick("tid", (int)tids.size())];
       s = sids[c.pick("sid", (int)sids.size())];
       flags = few_flags[1 + c.pick("flags", 2) * 2];
+      product = true;
       break;
   }
-  bool remote = !no_span && c.flip("original-is-remote");
+  bool remote = !no_span && !product && c.flip("original-is-remote");
   // stale headers already in the carrier (not in the id sweeps: a stale tracestate costs a regex match per execution)
   bool prefilled = (sweep == 0 || sweep == 3 || sweep == 4) && c.flip("carrier-prefilled");
   const std::string &tsh = trace_states()[tsi];
@@ -181,7 +182,7 @@ void run_inject(vf::Ctx &c) {
   c.stage("Extract(injected)");
   std::string injected = car.show();
   bool stale_state = prefilled && tsh.empty();
-  Extracted e = extract_checked(c, prop, car, c.pick("caller", 2), "C09:roundtrip");
+  Extracted e = extract_checked(c, prop, car, product ? 1 : c.pick("caller", 2), "C09:roundtrip");
   c.step();
   VFP_CHECK(c, e.installed, "C09:roundtrip:rejected", "Extract rejected what Inject wrote: " + injected);
   VFP_CHECK(c, e.tid == hex_lower(t.data(), 16) && e.sid == hex_lower(s.data(), 8), "C09:roundtrip:ids",
